@@ -404,7 +404,26 @@ func TestC20(t *testing.T) {
 			})
 		}
 		stats := &progress.Stats{}
-		as := newActive("c20", f1.CombineScenarios(fns...), stats)
+		combined := f1.CombineScenarios(fns...)
+		if r.Chance(40) {
+			// the same combined scenario value is set up more than once in a process (a second
+			// execution, or registered under two names): every setup stands on its own
+			pre := newActive("c20pre", combined, &progress.Stats{})
+			pre.Setup()
+			if !pre.Failed() && r.Bool() {
+				st0 := pre.VerifNewIterationState()
+				workers.VerifStateT(st0).Reset("1")
+				pre.Run(st0)
+			}
+			p.mu.Lock()
+			logv = logv[:0]
+			p.mu.Unlock()
+			setupHandles, runHandles = nil, nil
+			o.Count("setups", "second setup of the same combined scenario")
+		} else {
+			o.Count("setups", "first setup")
+		}
+		as := newActive("c20", combined, stats)
 		as.Setup()
 		setupEvents := append([]int64(nil), logv...)
 		setupFailed := as.Failed()
